@@ -4,13 +4,27 @@
 //
 // The space (DESIGN §C02) is every nesting of the 15 terminal positions up to
 // a depth, x recursion topology {self, 2-cycle, 3-cycle} x argument style
-// {accumulator, &rest, &key} x error mode {none, at the base case, at
-// iteration 1} x iteration count; the same shapes with one blocking boundary
-// inserted at every level; and the same shapes with one non-tail position
-// inserted at every level.  Every program is executed in a fresh runtime under
-// four configurations and three relations between those executions are
-// checked; no expected value is written down except the index of the innermost
-// handler (computed from N).
+// {accumulator, &rest, &key} x error mode {none, at iteration N, at iteration
+// 1} x definition style {defun, labels} x iteration count ("tail" family); the
+// same shapes with one blocking boundary inserted at every level ("blocked"
+// family); and the same shapes with one non-tail or macro-expansion position
+// inserted at every level ("transparency-only" family).  Every program is
+// executed under four configurations {elimination on (monitored), elimination
+// on (plain LoadString), elimination off (dormant debugger), profiler
+// attached} and three relations between those executions are checked:
+//
+//	transparency     value, stderr and error condition agree with the
+//	                 elimination-off run whenever that run fits the limits
+//	constant-stack   (tail family) the maximum stack height sampled at every
+//	                 evaluation step, and the stack depth seen by a host builtin
+//	                 at the base case, are EQUAL for N = 10, 100, 1000
+//	never-collapsed  (blocked family) exactly N frames of the blocker are on
+//	                 the stack at the base case, the same blocker frames as in
+//	                 the elimination-off run, and the innermost handler-bind /
+//	                 ignore-errors is the one that handles an error
+//
+// No expected value is written down except the index of the innermost handler
+// (computed from N).
 package c02
 
 import (
@@ -18,9 +32,11 @@ import (
 	"fmt"
 	"io"
 	"log"
+	"os"
 	"sort"
 	"strings"
 	"sync"
+	"time"
 
 	"verif/mc/core"
 )
@@ -201,32 +217,35 @@ var stackNs = map[int]bool{10: true, 100: true, 1000: true}
 
 var onOff = []string{cfgOn, cfgOff}
 
-// plan lists the runs of a group.  quick: N <= 100 under all four
-// configurations.  thorough adds N=1000: under all four configurations for
-// tail shapes of depth <= 2 and for blocked / non-tail shapes built on a base
-// shape of depth <= 1; under {on, off} for the depth-3 tail shapes with the
-// accumulator style and no error (one N=1000 run costs 20-50 ms, 10x the
-// design estimate; see the final report).
+// plan lists the runs of a group.
+//
+// quick: N in {0,1,2,3,10,100} under all four configurations.
+//
+// thorough: the same, plus N=1000, for tail shapes of depth <= 2 and for
+// blocked / transparency-only shapes built on a base shape of depth <= 1.  The
+// two big sets (3375 tail shapes of depth 3, 2700 blocked shapes on a base of
+// depth 2) run N <= 10 under all four configurations and N=100 under {on, off};
+// the depth-3 tail shapes also run N=1000 under {on, off} for the accumulator
+// style without error.  (One N=1000 run costs 20-50 ms, 10x the design
+// estimate; the profiler and plain configurations differ from "on" by one
+// deferred call / the absence of a context and are covered at depth <= 2.)
 func plan(g group, thorough bool) []nrun {
+	d := len(g.Shape)
+	big := (g.Family == "tail" && d >= 3) || (g.Family != "tail" && d-1 >= 2)
 	var out []nrun
-	for _, n := range []int{0, 1, 2, 3, 10, 100} {
+	for _, n := range []int{0, 1, 2, 3, 10} {
 		out = append(out, nrun{n, allConfigs})
 	}
-	if !thorough {
+	if !big {
+		out = append(out, nrun{100, allConfigs})
+		if thorough {
+			out = append(out, nrun{1000, allConfigs})
+		}
 		return out
 	}
-	d := len(g.Shape)
-	switch g.Family {
-	case "tail":
-		if d <= 2 {
-			out = append(out, nrun{1000, allConfigs})
-		} else if g.Args == "acc" && g.Err == "none" {
-			out = append(out, nrun{1000, onOff})
-		}
-	default: // one inserted token: base depth = d-1
-		if d-1 <= 1 {
-			out = append(out, nrun{1000, allConfigs})
-		}
+	out = append(out, nrun{100, onOff})
+	if g.Family == "tail" && g.Args == "acc" && g.Err == "none" && g.Def == "" {
+		out = append(out, nrun{1000, onOff})
 	}
 	return out
 }
@@ -505,7 +524,8 @@ func run(r *core.Run) {
 	r.Bound("definition_styles", "top-level defun (all families); labels-bound closures (tail family, error mode none)")
 	r.Bound("iteration_counts", ns)
 	if r.Thorough() {
-		r.Bound("iteration_count_1000", "tail shapes of depth<=2 and blocked/non-tail shapes on a base shape of depth<=1: all configurations, all styles and error modes; tail shapes of depth 3: accumulator style, no error, configurations on+off")
+		r.Bound("iteration_count_1000", "tail shapes of depth<=2 and blocked/transparency-only shapes on a base shape of depth<=1: all configurations, all styles and error modes; tail shapes of depth 3: accumulator style, defun, no error, configurations on+off")
+		r.Bound("iteration_count_100_big_sets", "tail shapes of depth 3 and blocked shapes on a base shape of depth 2 run N=100 under configurations on+off only (N<=10 under all four)")
 	}
 	r.Bound("configurations", allConfigs)
 	r.Rule("a program is every (shape, topology, argument style, error mode, N); non-trivial = it performs at least one recursive call (N>=1) and its elimination-off run stays inside the stack limits so that the transparency relation applies; distinct by source text")
@@ -551,7 +571,10 @@ func run(r *core.Run) {
 			r.Cap(fmt.Sprintf("soft deadline before the %d %s shapes of length %d", len(shapes), st.family, st.length))
 			continue
 		}
-		e.runGroups(makeGroups(st.family, shapes))
+		t0 := time.Now()
+		gs := makeGroups(st.family, shapes)
+		e.runGroups(gs)
+		fmt.Fprintf(os.Stderr, "c02: %s shapes of length %d: %d shapes, %d groups, %.1fs\n", st.family, st.length, len(shapes), len(gs), time.Since(t0).Seconds())
 	}
 	r.AddStates(int64(len(e.sources)))
 	r.Extra("tail_programs_where_elimination_lowered_the_stack", e.collapsed)
